@@ -31,7 +31,8 @@ Trusted / idealised here (besides the shared base):
   whose ticket it carries is C04/C05; `Macaroon.Add`'s de-duplication of caveats is modelled;
 * the LRU's own locking and each record's RWMutex: every store operation is atomic, except that
   `DeleteByPollSecret` is split into its lookup and its removals; eviction is arbitrary;
-* the application calls exactly one responder per init request and passes ordinary caveats.
+* the application calls exactly one responder per init request; which caveat lists
+  `Macaroon.Add` refuses is abstracted to a predicate on caveat ids (`refuses`: id 0 is refused).
 The correspondence (family `tp`) ties `step`, `micro` and the schedule semantics to the real
 `tp.TP` + `tp.MemoryStore` behind a wrapping `tp.Store`.
 -/
@@ -44,14 +45,36 @@ open Macaroon.TP
 
 /-- A discharge leaves the service only (a) as the immediate answer of an `init` on a ticket that
 opened, for that very ticket with the caveats the application passed, or (b) from a poll with the
-poll secret of a flow that an `init` on that ticket started, when the latest decision on that very
-flow was an approval with exactly these caveats. -/
+poll secret of a flow that an `init` on that ticket started, when the latest SUCCESSFUL decision on
+that very flow (`lastDecision` counts only calls that returned no error) was an approval with
+exactly these caveats.  In both cases the caveat list is one `Macaroon.Add` accepts as a whole
+(`refuses cs = false`): a discharge never carries a part of what the application passed. -/
 theorem discharge_only_after_approval (as : List Action) (a : Action) (d : Discharge)
     (hd : (step (exec as).1 a).2.discharge? = some d) :
-    (∃ cs, a = .init (.good d.ticket) (.immediate cs) ∧ d = mkDischarge d.ticket cs) ∨
+    (∃ cs, a = .init (.good d.ticket) (.immediate cs) ∧ refuses cs = false ∧ d = mkDischarge d.ticket cs) ∨
     (∃ ps us cs, a = .poll ps ∧ Issued (exec as).2 d.ticket ps us ∧
-      lastDecision ps us (exec as).2 = some (.approve cs) ∧ d = mkDischarge d.ticket cs) :=
-  (exec_inv as).discharge_justified hd
+      lastDecision ps us (exec as).2 = some (.approve cs) ∧ refuses cs = false ∧
+      d = mkDischarge d.ticket cs) :=
+  (exec_inv as).discharge_justified (exec_dec_ok as) hd
+
+/-- An approval whose caveat list `Macaroon.Add` refuses (id 0 in the list: an attestation inside a
+wrapper caveat, a second third-party caveat for one location, an unencodable caveat) returns an
+error and changes nothing — in ANY store state, through either secret: the flow stays undecided
+or keeps its earlier decision. -/
+theorem refused_approval_changes_nothing (st : Store) (r : Role) (s : Nat) (cs : List Nat)
+    (h : refuses cs = true) : step st (.decide r s (.approve cs)) = (st, .api false) :=
+  step_refused_approval st r s h
+
+/-- … and the immediate mode with such a list answers 500 without a discharge, nothing stored -/
+theorem refused_immediate_no_discharge (st : Store) (tid : Nat) (cs : List Nat) (h : refuses cs = true) :
+    step st (.init (.good tid) (.immediate cs)) = (st, .http 500 .internal true) :=
+  step_refused_immediate st tid h
+
+/-- every decision call that returned no error in a history was an abort or an approval whose
+caveats `Add` accepts -/
+theorem recorded_approvals_are_accepted (as : List Action) (r : Role) (s : Nat) (cs : List Nat)
+    (h : (Action.decide r s (.approve cs), Out.api true) ∈ (exec as).2) : refuses cs = false := by
+  simpa [Decision.ok] using exec_dec_ok as r s _ h
 
 /-- what "the latest decision was `d`" means, spelled out: some earlier event is a successful
 decision `d` on the flow and no event after it is a successful decision on the flow -/
@@ -161,12 +184,30 @@ trace `pre` up to that `Get` — the flow had been inserted by an `init` on tick
 the last successful `Update` on the flow was an approval with exactly these caveats. -/
 theorem il_discharge_only_after_approval (sched : List Sched) (i : Nat) (a : Action) (o : Out) (d : Discharge)
     (hret : Ev.returned i a o ∈ (Sys.run sched).2) (hd : o.discharge? = some d) :
-    (∃ cs, a = .init (.good d.ticket) (.immediate cs) ∧ d = mkDischarge d.ticket cs) ∨
+    (∃ cs, a = .init (.good d.ticket) (.immediate cs) ∧ refuses cs = false ∧ d = mkDischarge d.ticket cs) ∨
     (∃ ps us cs pre data, a = .poll ps ∧
       (Ev.op i a (.got (pollKey ps) (some data)) :: pre) <:+ (Sys.run sched).2 ∧
-      InsertedT pre d.ticket ps us ∧ lastDecisionT ps us pre = some (.approve cs) ∧
+      InsertedT pre d.ticket ps us ∧ lastDecisionT ps us pre = some (.approve cs) ∧ refuses cs = false ∧
       d = mkDischarge d.ticket cs) :=
   ((run_inv sched).t.rets i a o hret).1 d hd
+
+/-- Whatever the schedule: a `Discharge*` call whose caveat list `Add` refuses returns an error,
+never performs a successful `Update` (so it changes no record), and such a list is never the
+latest decision of any flow at any time. -/
+theorem il_refused_approval_changes_nothing (sched : List Sched) (r : Role) (s : Nat) (cs : List Nat)
+    (h : refuses cs = true) :
+    (∀ i o, Ev.returned i (.decide r s (.approve cs)) o ∈ (Sys.run sched).2 → o = .api false) ∧
+    (∀ i k nd, Ev.op i (.decide r s (.approve cs)) (.updated k nd true) ∉ (Sys.run sched).2) ∧
+    (∀ ps us, lastDecisionT ps us (Sys.run sched).2 ≠ some (.approve cs)) := by
+  have inv := run_inv sched
+  refine ⟨fun i o hret => (inv.t.rets _ _ _ hret).2.2.2 r s cs rfl h, ?_, ?_⟩
+  · intro i k nd hm
+    have := inv.s.upd_ok _ _ _ _ _ _ hm
+    simp [Decision.ok, h] at this
+  · intro ps us hl
+    obtain ⟨i, r', s', k, nd, hm⟩ := lastDecisionT_mem hl
+    have := inv.s.upd_ok _ _ _ _ _ _ hm
+    simp [Decision.ok, h] at this
 
 /-- Whatever the schedule: a handler presented with a key that no `Insert` ever filed returns the
 not-found answer. -/
@@ -226,6 +267,13 @@ theorem racing_polls_both_answered :
 example : (step (exec [.init (.good 7) .poll, .approvePoll 1 [3, 3, 4]]).1 (.poll 1)).2.discharge? = some ⟨7, [3, 4]⟩ := by
   decide
 
+/-- a refused caveat (id 0) anywhere in the list: the approval errs, the poll still answers not ready,
+an earlier approval stays in force, the immediate mode answers 500 -/
+example : outputs [.init (.good 7) .poll, .approvePoll 1 [3, 0, 4], .poll 1, .approveUser 0 [5],
+    .approvePoll 1 [0], .poll 1, .init (.good 7) (.immediate [4, 0])] =
+    [.http 201 (.pollUrl 1 0) true, .api false, .http 202 .notReady false, .api true,
+     .api false, .http 200 (.discharge ⟨7, [5]⟩) false, .http 500 .internal true] := by decide
+
 /-- … and one on which a later abort overrides the approval: no discharge -/
 example : (step (exec [.init (.good 7) .poll, .approvePoll 1 [3], .abortUser 0 5]).1 (.poll 1)).2 =
     .http 200 (.error 5) false := by decide
@@ -260,6 +308,9 @@ example : Ev.returned 0 (.poll 9) (.http 404 .notFound false) ∈ (Sys.run [.spa
 end Macaroon.Props.C16
 
 #print axioms Macaroon.Props.C16.discharge_only_after_approval
+#print axioms Macaroon.Props.C16.refused_approval_changes_nothing
+#print axioms Macaroon.Props.C16.refused_immediate_no_discharge
+#print axioms Macaroon.Props.C16.recorded_approvals_are_accepted
 #print axioms Macaroon.Props.C16.lastDecision_eq_some_iff
 #print axioms Macaroon.Props.C16.not_ready_before_decision
 #print axioms Macaroon.Props.C16.abort_delivers_error
@@ -270,6 +321,7 @@ end Macaroon.Props.C16
 #print axioms Macaroon.Props.C16.not_found_is_silent
 #print axioms Macaroon.Props.C16.bad_ticket_short_circuits
 #print axioms Macaroon.Props.C16.il_discharge_only_after_approval
+#print axioms Macaroon.Props.C16.il_refused_approval_changes_nothing
 #print axioms Macaroon.Props.C16.il_unknown_secret_not_found
 #print axioms Macaroon.Props.C16.il_cross_used_not_inserted
 #print axioms Macaroon.Props.C16.il_gone_after_collection_hb
